@@ -1,12 +1,12 @@
 SPECIFICATION Spec
 CONSTANTS
-  Objs = {"ri", "vd"}
+  Objs = {"s1"}
   Names = {"a", "ab"}
   Types = {"i16", "c8"}
-  Counts = {1, 2, 65535}
+  Counts = {2}
   DimNames = {"x"}
   ScaleTypes = {"i16"}
-  MaxAttrs = 2
+  MaxAttrs = 6
   MaxAdd = 1
   DataMod = 2
   MaxOps = 100
